@@ -39,7 +39,7 @@ PROBES = ["earlier_killed", "earlier_io_error", "earlier_clean", "debris_spill_f
           "debris_partial_result", "debris_header_only", "debris_unreadable_parquet", "same_data", "other_data",
           "other_format", "multi_history", "cli", "cli_tsv_leftover", "observed_workers>1", "torn_write",
           "debris_zero_length", "prefix_or_root_differs", "observed_rows_multiple_of_chunk", "rollup_tool", "rollup_same_dir", "earlier_rollup_had_other_inputs", "rollup_outputs_match_input_pattern",
-          "several_collections_with_prefixes", "unlink_refused", "observed_protein_level", "earlier_protein_level", "observed_writes_sqlite", "earlier_wrote_sqlite", "glob_metacharacters_in_prefix_or_root"]
+          "several_collections_with_prefixes", "unlink_refused", "observed_protein_level", "earlier_protein_level", "observed_writes_sqlite", "earlier_wrote_sqlite", "glob_metacharacters_in_prefix_or_root", "input_replaced_by_valid_table_between_runs"]
 RULE = (
     "Histories in one destination directory. Family 1 enumerates, for each grid cell (earlier chunk size x observed "
     "chunk size x same/other data x same/other format), EVERY mutation call index of the earlier assign_confidence run "
@@ -280,6 +280,8 @@ def _family3(seed, tier):
             scn["fault"] = {"at": k, "kind": kind}
             if frac is not None:
                 scn["fault"]["frac"] = frac
+            # between the two runs the user may put another, already rectangular table at the same path
+            scn["replace_input"] = {"data_seed": (tab["data_seed"] + 1 + i) % 2**32} if i % 3 == 1 else None
             i += 1
             yield scn
     scn = clone(base)
@@ -615,6 +617,16 @@ def _run_cli_history(scn, workdir):
     if after_first not in (original, expected_tsv):
         return viol("input_file_corrupted", f"after the interrupted run the user's PIN is neither the original nor its "
                     f"conversion ({len(after_first.splitlines())} lines vs {len(original.splitlines())})", when="first_run")
+    replaced = None
+    if scn.get("replace_input"):
+        from .. import datagen
+
+        tab2 = W.build_conf_table(dict(scn["table"], data_seed=scn["replace_input"]["data_seed"]))
+        for pth in (pin_d, pin_c):
+            datagen.write_pin(pth, tab2)
+        replaced = pin_d.read_text()
+        expected_tsv = replaced  # a valid table: the run must leave it alone
+        probes["input_replaced_by_valid_table_between_runs"] = 1
     o = {"argv": _cli_args(pin_d, dirty / "out", rng), "fault": None, "seed": 1}
     rep_d = H.run_cli(o, dirty)
     c = {"argv": _cli_args(pin_c, clean / "out", rng), "fault": None, "seed": 1}
@@ -637,8 +649,8 @@ def _run_cli_history(scn, workdir):
         n_got = len(final.splitlines())
         heads = sum(1 for ln in final.splitlines() if ln == expected_tsv.splitlines()[0])
         return viol("input_file_corrupted", f"after the second run the user's PIN has {n_got} lines ({heads} header lines) "
-                    f"instead of the {n_exp}-line conversion of the original; leftovers of the interrupted run were mixed in",
-                    when="second_run")
+                    f"instead of the {n_exp}-line {'table the user had put there' if replaced else 'conversion of the original'}; "
+                    f"leftovers of the interrupted run were mixed in", when="second_run", replaced=bool(replaced))
     if pin_c.read_text() != expected_tsv:
         return viol("input_file_corrupted", "clean run: converted PIN differs from the expected conversion", when="clean")
     a, b = H.read_dir(dirty / "out"), H.read_dir(clean / "out")
@@ -646,7 +658,7 @@ def _run_cli_history(scn, workdir):
         if a.get(name) != want:
             return viol("result_differs", f"CLI result file {name} differs from the clean run", level=name.split(".")[-1])
     left = [n for n, _ in H.listing(dirty) if n.endswith(".tsv")]
-    if left:
+    if left and not replaced:  # (a valid input is not converted: a leftover .tsv is then debris the run does not use)
         return viol("intermediate_left", f"temporary conversion file remains after a successful run: {left}", which="tsv")
     return out
 
